@@ -250,6 +250,12 @@ class World:
     def gate(self, name):
         return self.gates.setdefault(name, threading.Event())
 
+    def tevent(self, name, flavour):
+        key = "%s:%s" % (flavour, name)
+        if key not in self.gates:
+            self.gates[key] = trio.Event() if flavour == "trio" else asyncio.Event()
+        return self.gates[key]
+
 
 def context_facts():
     facts = {"main": threading.current_thread() is threading.main_thread(), "tid": threading.get_native_id()}
@@ -367,7 +373,18 @@ def do_service(world, sid, by):
         return
     cls = service_class(sspec["flavour"], sspec.get("shape", "plain"), sspec.get("base_flavour"))
     LOG("call", op="service", pid="svc:%s" % sid, by=by, gen=world.gen)
-    inst = cls()
+    if sspec.get("init_blocks"):
+        # a service whose constructor takes its time (it opens a connection, reads a file): whoever constructs it blocks
+        # (a service class of its own, declared with the decorator - not a subclass of one)
+        raw = type("Slow_" + cls.__name__, (object,), {"__init__": lambda self, t=sspec["init_blocks"]: time.sleep(t), "run": service_class(sspec["flavour"]).run})
+        cls = service(flavour=FLAVOURS[sspec["flavour"]])(raw)
+        LOG("block-start", pid="ctor:%s" % sid, gen=world.gen, how="constructor")
+        try:
+            inst = cls()
+        finally:
+            LOG("block-end", pid="ctor:%s" % sid, gen=world.gen, how="constructor")
+    else:
+        inst = cls()
     SERVICE_SPECS[id(inst)] = (world, dict(sspec, id="svc:%s" % sid))
     world.instances[sid] = inst
     LOG("return", op="service", pid="svc:%s" % sid, by=by, gen=world.gen)
@@ -579,6 +596,23 @@ async def run_async(world, pspec, args, kwargs):
                         await asyncio.get_running_loop().create_future()
                     else:
                         await trio.Event().wait()
+                elif kind == "executor_job":
+                    # waits for a job in a worker thread of the loop's default executor (a blocking library call); when the
+                    # payload is cancelled it tells the job to come back
+                    done = threading.Event()
+                    LOG("step", pid=pid, gen=world.gen, n=0, inside_section=0, **context_facts())
+                    try:
+                        if flavour == "asyncio":
+                            await asyncio.get_running_loop().run_in_executor(None, done.wait, 60)
+                        else:
+                            await trio.to_thread.run_sync(done.wait, 60, abandon_on_cancel=True)
+                    finally:
+                        done.set()
+                elif kind == "tevent_wait":
+                    # wait on an event of the framework itself: everybody waiting on it wakes up in the same scheduler tick
+                    await world.tevent(op[1], flavour).wait()
+                elif kind == "tevent_set":
+                    world.tevent(op[1], flavour).set()
                 elif kind == "gate":
                     gate = world.gate(op[1])
                     waited = 0.0
@@ -598,7 +632,12 @@ async def run_async(world, pspec, args, kwargs):
                 do_adopt(world, pspec["handover"], by=pid)
             if cleanup["kind"] == "shielded" and flavour == "trio":
                 with trio.CancelScope(shield=True):
-                    if cleanup.get("handover_mid"):
+                    if cleanup.get("execute_mid"):
+                        # the cleanup needs something done in the other loop (flush a buffer, deregister): a blocking call half way through
+                        await trio.sleep(cleanup["dur"] / 2)
+                        do_execute(world, cleanup["execute_mid"], by=pid)
+                        await trio.sleep(cleanup["dur"] / 2)
+                    elif cleanup.get("handover_mid"):
                         # the cleanup hands work over half way through, like any other line of it
                         await trio.sleep(cleanup["dur"] / 2)
                         do_adopt(world, cleanup["handover_mid"], by=pid, strict=True)
@@ -1021,6 +1060,15 @@ def run_generation(gen_spec, index):
             for _ in range(p.get("repeat", 1) - 1):
                 early.append((do_adopt_same, p["id"]))  # the very same callable object once more
     early += [(do_service, s["id"]) for s in gen_spec.get("services", []) if s.get("create") == "before"]
+    if gen_spec.get("idle_runner"):
+        # a second runner object in the same process (say the global cobald.daemon.runtime next to a private one) that is
+        # never started: what is queued on it belongs to it
+        world.idle_runner = ServiceRunner(accept_delay=0.05)
+        for pid in gen_spec["idle_runner"]:
+            child = world.payloads[pid]
+            args, kwargs = build_args(world, pid, child)
+            world.idle_runner.adopt(make_payload(world, child), *args, flavour=FLAVOURS[child["flavour"]], **kwargs)
+            LOG("queued-on-idle-runner", pid=pid, gen=world.gen)
     k = gen_spec.get("prestart_threads", 0)
     if k and early:
         # several threads register their payloads at the same time before the runtime exists
